@@ -68,7 +68,15 @@ class Monitor:
                 return o
         return CChar
 
+    # commands this "kernel" does not know: {command: errno} (e.g.
+    # BPF_MAP_LOOKUP_AND_DELETE_ELEM on hash maps before Linux 5.14)
+    deny = {}
+
     def bpf(self, cmd, fmt, *args):
+        if cmd in self.deny:
+            self.denied = getattr(self, "denied", 0) + 1
+            raise OSError(self.deny[cmd], "vf monitor: command not "
+                          "supported by this kernel")
         if cmd in MAP_CMDS:
             before = len(self.violations)
             self.check(cmd, args)
